@@ -83,6 +83,34 @@ func expectedOBUs(os []av1OBU) []byte {
 	return b
 }
 
+// emitAv1LebEdges emits payloader cases in which the space left in the open packet, when a large
+// OBU arrives, sits at a LEB128 size boundary (128 or 16384 bytes, -3..+6): the length-field budget
+// of computeWriteSize has its special cases exactly there.  k small OBUs (1-3 bytes) precede it.
+func emitAv1LebEdges(c *RNG, edges []int, emit func(op int, toks ...Tok)) {
+	for _, edge := range edges {
+		for k := 0; k <= 4; k++ {
+			var os []av1OBU
+			used := 1 // aggregation header
+			for j := 0; j < k; j++ {
+				o := av1OBU{typ: 6, hasSize: true, payload: c.Bytes(1 + c.Intn(3))}
+				os = append(os, o)
+				used += 1 + 1 + len(o.payload) // length field, header, payload
+			}
+			big := av1OBU{typ: c.Pick(3, 6), hasSize: true, payload: c.Bytes(edge + c.Pick(0, 1, 7, edge/4, edge))}
+			os = append(os, big)
+			if c.Bool() {
+				os = append(os, av1OBU{typ: 6, hasSize: c.Bool(), payload: c.Bytes(1 + c.Intn(5))})
+			}
+			in := encodeOBUs(os)
+			for d := -3; d <= 6; d++ {
+				if mtu := used + edge + d; mtu >= 2 && mtu <= 65535 {
+					emit(1301, TI(int64(mtu)), TBytes(in))
+				}
+			}
+		}
+	}
+}
+
 func genOBUs(c *RNG, mtu int) []av1OBU {
 	n := 1 + c.Intn(6)
 	sameLayer := c.Bool()
@@ -329,7 +357,7 @@ func init() {
 	}
 	register(&Prop{
 		ID:       "C13",
-		Rule:     "OBU sequences (1-6 OBUs, all 16 types with mass on 1/3/4/5/6/7, extension headers with equal or differing temporal/spatial ids, sizes 0-3, MTU-4..MTU+3, 120-139, 0-2xMTU, size field omitted on the last OBU in a third of cases) x MTU 2-400 (and 0-1): payloader output checked against the aggregation rules, fed to AV1Depacketizer and to AV1Packet+frame.AV1 and compared with the OBUs; garbage and mutated payloads for both receivers; LEB128 at every 7-bit boundary +-2 and random 64-bit values; OBU header byte pairs on a 4096-point lattice (all 2^16 in thorough); non-trivial = >= 2 packets or an accepted payload",
+		Rule:     "OBU sequences (1-6 OBUs, all 16 types with mass on 1/3/4/5/6/7, extension headers with equal or differing temporal/spatial ids, sizes 0-3, MTU-4..MTU+3, 120-139, 0-2xMTU, size field omitted on the last OBU in a third of cases) x MTU 2-400 (and 0-1): payloader output checked against the aggregation rules, fed to AV1Depacketizer and to AV1Packet+frame.AV1 and compared with the OBUs; garbage and mutated payloads for both receivers; payloader cases whose free packet space sits at the LEB128 size boundaries 128 and 16384 (-3..+6) behind 0-4 small OBUs; LEB128 at every 7-bit boundary +-2 and random 64-bit values; OBU header byte pairs on a 4096-point lattice (all 2^16 in thorough); non-trivial = >= 2 packets or an accepted payload",
 		Quick:    4000,
 		Thorough: 200000,
 		Gen: func(r *RNG, tier string, n int, emit func(op int, toks ...Tok)) {
@@ -346,6 +374,12 @@ func init() {
 			}
 			for h := 0; h < 65536; h += step {
 				emit(1306, TBytes([]byte{byte(h >> 8), byte(h)}))
+			}
+			if tier == "thorough" {
+				emitAv1LebEdges(r.Fork(424242), []int{128, 16384}, emit)
+				emitAv1LebEdges(r.Fork(424243), []int{128, 16384}, emit)
+			} else {
+				emitAv1LebEdges(r.Fork(424242), []int{128, 16384}, emit)
 			}
 			for i := 0; i < n; i++ {
 				c := r.Fork(uint64(i))
